@@ -98,7 +98,7 @@ def build_source(ctx, rng, kind, idx):
         else int(rng.integers(1, 90))
     model = gd.gen_model(rng, n=n, hostile_logs=True, roi=(int(rng.integers(4, 10)),
                                                            int(rng.integers(4, 10))))
-    if kind == "hdf5short" and n > 2:
+    if kind == "hdf5short" and n > 2 and len(model["features"]) > 1:
         # interrupted recording: one feature holds fewer events than the others; the export
         # documents that it then limits the output to the shortest feature
         # (not the alphabetically first feature: that one defines the file's event count)
